@@ -26,7 +26,7 @@ func (e *Engine) run(init *State) {
 				panic(unsupported("step budget exceeded"))
 			}
 		}
-		if st.dry == nil {
+		if st.dry == nil && !st.infeasible {
 			npaths++
 			if npaths > e.maxPaths {
 				panic(unsupported(fmt.Sprintf("path budget exceeded (%d)", e.maxPaths)))
@@ -218,6 +218,24 @@ func (e *Engine) doIf(st *State, in *ssa.If) []*State {
 	if c.T == "false" {
 		e.gotoBlock(st, fb)
 		return nil
+	}
+	if st.dry == nil && e.prune != nil {
+		tOK, fOK := e.prune(st, c.T)
+		switch {
+		case tOK && !fOK:
+			st.assume(c.T)
+			e.gotoBlock(st, tb)
+			return nil
+		case !tOK && fOK:
+			st.assume(not(c.T))
+			e.gotoBlock(st, fb)
+			return nil
+		case !tOK && !fOK:
+			// the path itself is infeasible
+			st.dead = true
+			st.infeasible = true
+			return nil
+		}
 	}
 	other := st.clone()
 	st.assume(c.T)
@@ -551,7 +569,7 @@ func (e *Engine) doIndexAddr(st *State, in *ssa.IndexAddr) {
 		if isArray(et) {
 			panic(unsupported("slice of arrays"))
 		}
-		h := e.d.ElemHeap(e.d.SortOf(et))
+		h := e.d.ElemHeapT(et)
 		e.setReg(st, in, Val{K: KElem, Heap: h, Base: app("sarr", x.T), Idx: idx, Typ: in.Type()})
 	case *types.Pointer:
 		at := xt.Elem().Underlying().(*types.Array)
@@ -565,7 +583,7 @@ func (e *Engine) doIndexAddr(st *State, in *ssa.IndexAddr) {
 				e.setReg(st, in, term(e.mkERef(st, et, x.T, i.T), SRef, in.Type()))
 				return
 			}
-			h := e.d.ElemHeap(e.d.SortOf(et))
+			h := e.d.ElemHeapT(et)
 			e.setReg(st, in, Val{K: KElem, Heap: h, Base: x.T, Idx: i.T, Typ: in.Type()})
 		case KArrPtr:
 			if isStruct(et) {
@@ -665,7 +683,7 @@ func (e *Engine) doMakeSlice(st *State, in *ssa.MakeSlice) {
 	r := e.allocRef(st, "arr")
 	if !isStruct(et) {
 		es := e.d.SortOf(et)
-		h := e.d.ElemHeap(es)
+		h := e.d.ElemHeapT(et)
 		e.heapStore(st, h, r, fmt.Sprintf("((as const (Array Int %s)) %s)", es, e.d.Zero(es, et)))
 	} else {
 		st.note("make([]struct): element zero-initialisation not modelled")
@@ -790,7 +808,7 @@ func (e *Engine) doSlice(st *State, in *ssa.Slice) {
 			switch x.K {
 			case KTerm:
 				e.safety(st, "nil", in, not(eq(x.T, "rnil")))
-				arr = sel(st.heapGet(e.d.ElemHeap(SInt)), x.T)
+				arr = sel(st.heapGet(e.d.ElemHeapT(at.Elem())), x.T)
 			case KArrPtr:
 				arr = sel(st.heapGet(x.Heap), x.Base)
 			default:
